@@ -34,6 +34,18 @@ func init() {
 			r := t.crc(t.curSt, a, tInt(0))
 			return &Val{T: r, KnownLen: -1}, true
 		},
+		"sync/atomic.LoadPointer":  atomicLoad,
+		"sync/atomic.StorePointer": atomicStore,
+		"sync/atomic.CompareAndSwapPointer": func(t *Tr, instr ssa.Instruction, cc *ssa.CallCommon, pos token.Pos) (*Val, bool) {
+			l := t.locOf(cc.Args[0])
+			t.trusted["sync/atomic operations are plain reads/writes (no interleaving semantics)"] = true
+			cur := t.c.locRead(t.curSt, l)
+			old, nw := t.term(cc.Args[1]), t.term(cc.Args[2])
+			ok := t.c.fresh("cas", SBool)
+			t.c.assert(eq(ok, eq(cur, old)))
+			t.c.locWrite(t.curSt, l, ite(ok, nw, cur))
+			return &Val{T: ok, KnownLen: -1}, true
+		},
 		"sync/atomic.LoadInt64":  atomicLoad,
 		"sync/atomic.LoadInt32":  atomicLoad,
 		"sync/atomic.LoadUint64": atomicLoad,
@@ -196,8 +208,11 @@ func (m *ModSets) checkFrozen(pkg, name string) bool {
 						return false
 					}
 				case *ssa.UnOp:
-					if !isInit && !readOnlyUses(x, 0) {
-						return false
+					switch deref(g.Type()).Underlying().(type) {
+					case *types.Slice, *types.Map, *types.Pointer:
+						if !isInit && !readOnlyUses(x, 0) {
+							return false
+						}
 					}
 				case *ssa.DebugRef:
 				default:
